@@ -32,7 +32,7 @@ func init() {
 			"EACCES} one run with that call failing, and for EVERY element of L one run killed (SIGKILL) on entry to that call. Coverage is verified from the strace log ((INJECTED) / killed " +
 			"marker on the intended call); an element that cannot be hit after retries is listed as a gap and makes the run exhaustive:false. Oracle after every run: target bytes = original " +
 			"or fully formatted; mode bits unchanged; unparsable input => bytes unchanged and exit != 0; an injected failure exits != 0 unless the target already holds the formatted text; -c " +
-			"exits 0 iff input == Format(input) (an archive: iff it equals, byte for byte, what -w would write, including the final newline txtar completes) and modifies nothing. Non-trivial = runs with an injected fault.",
+			"exits 0 iff input == Format(input) (an archive: iff it equals, byte for byte, what -w would write, including the final newline txtar completes) and modifies nothing. After every killed or failed run of -w on an .evy file the file is edited (shorter formatted text) and formatted again, undisturbed, in the same directory: it must hold exactly the new formatted text. Non-trivial = runs with an injected fault.",
 		Assumptions: []string{"the process is killed, the machine is not: data written before the kill is in the page cache and counts as written (no power-loss model)",
 			"strace can fake a syscall's return value but cannot make the kernel perform a partial write", "faults in non-file syscalls are not injected"},
 		TrustedBase:   []string{"strace 6.1 -e inject", "Program.Format of the working tree computes the expected formatted text (its correctness is C06/C07's business)"},
@@ -334,10 +334,34 @@ func c18Run(c c18Case, retries int) (v *fw.Violation, hit bool) {
 			continue
 		}
 		v := c18Oracle(c, f, res, viol)
+		if v == nil && c.Fault != "" && c.Config.Mode == "w" {
+			v = c18Followup(c, f, viol)
+		}
 		os.RemoveAll(f.dir)
 		return v, true
 	}
 	return nil, false
+}
+
+// c18Followup: whatever a killed or failed run left behind in the directory (a temporary file, say), the next undisturbed
+// evy fmt -w on the same file - edited in the meantime so that its formatted text is shorter - formats it completely.
+func c18Followup(c c18Case, f *c18Files, viol func(sig, what, exp, obs string) *fw.Violation) *fw.Violation {
+	p := filepath.Join(f.dir, "a.evy")
+	const edited, want = "y:=2\nprint   y\n", "y := 2\nprint y\n"
+	if err := os.WriteFile(p, []byte(edited), 0o644); err != nil {
+		return nil // the scenario cannot be set up (e.g. read-only mode bits): nothing to judge
+	}
+	os.Chmod(p, os.FileMode(c.Config.Perm)) //nolint:errcheck
+	cmd := exec.Command(os.Getenv("VERIF_EVY"), "fmt", "-w", "a.evy")
+	cmd.Dir = f.dir
+	cmd.Env = append(os.Environ(), "NO_COLOR=1")
+	out, err := cmd.CombinedOutput()
+	b, _ := os.ReadFile(p)
+	if err != nil || string(b) != want {
+		return viol("next-run-after-fault", "the next undisturbed evy fmt -w after a killed or failed one (file edited in between) does not format the file completely",
+			fmt.Sprintf("exit 0, %q", want), fmt.Sprintf("%v %s, %q", err, fw.Trunc(strings.ReplaceAll(string(out), f.dir, "<dir>"), 200), fw.Trunc(string(b), 300)))
+	}
+	return nil
 }
 
 func c18Oracle(c c18Case, f *c18Files, res *straceResult, viol func(sig, what, exp, obs string) *fw.Violation) *fw.Violation {
